@@ -6,6 +6,10 @@ ENGINE_ASSUME = [
     "the reference model (byte array per volume, snapshot tree, counter) is the specification of the statement",
 ]
 
+HOOK_COMMITS = ["207740b", "bd99653", "1c0910e", "2a65ab3"]
+
+NOT_APPLICABLE = {}
+
 PLAN = {
     "C01": {
         "level": "exploration",
@@ -23,4 +27,40 @@ PLAN = {
             {"run": "TestC01", "shards": 2, "checks": 60, "timeout": 840, "real_drainer_shards": 2},
         ]},
     },
+
 }
+
+def _engine(pid, test, rule, quick_checks=100, thorough_checks=2500, real_quick=5, real_thorough=50):
+    PLAN[pid] = {
+        "level": "exploration", "rule": rule, "assumptions": ENGINE_ASSUME,
+        "quick": {"wall": 120, "tests": [
+            {"run": test, "shards": 14, "checks": quick_checks, "timeout": 100},
+            {"run": test, "shards": 1, "checks": real_quick, "timeout": 100, "real_drainer_shards": 1},
+        ]},
+        "thorough": {"wall": 900, "tests": [
+            {"run": test, "shards": 14, "checks": thorough_checks, "timeout": 840},
+            {"run": test, "shards": 2, "checks": real_thorough, "timeout": 840, "real_drainer_shards": 2},
+        ]},
+    }
+
+_engine("C06", "TestC06",
+        "op programs biased to punching on (80%), user snapshots followed by automatic snapshots and multi-block overwrites, "
+        "reopen with preload, UpdateLUNMap, unmap, removals; every retained user snapshot is re-read after every step by an "
+        "independent on-disk chain reader and, at the end of the case, by revert on an extent-exact copy; non-trivial = punching on, "
+        ">=1 user snapshot and a later write; distinct = FNV hash of the program")
+_engine("C10", "TestC10",
+        "op programs with RW/WO mode switches, zero-length/unaligned writes, SetRevisionCounter, snapshots, removals, reverts, reopen; "
+        "GetRevisionCounter compared with the counter model after every step and after reopen; non-trivial = >=2 writes and a WO phase or a reopen")
+_engine("C11", "TestC11",
+        "op programs biased to long chains (user/auto snapshots, mark-removed, checkpoint at the latest snapshot or withdrawn), "
+        "cleaner-style deletion (GetDeleteCandidateChain -> PrepareRemoveDisk -> sparse.FoldFile -> RemoveDiffDisk) with any candidate, "
+        "direct requests against head/latest/base/unknown; candidate list checked against the statement's validity predicate, "
+        "live image and retained user snapshots compared after every step; non-trivial = >=1 successful deletion")
+_engine("C12", "TestC12",
+        "management-heavy op programs (fresh/duplicate/over-long snapshots, remove, mark-removed, revert to valid/unknown names, "
+        "resize grow/equal/shrink/garbage, set-checkpoint, wrong mode) with reopen in between; after every step Chain(), files on disk, "
+        "ListDisks attributes, volume.meta compared with the model (unchanged on refusal); non-trivial = >=1 refused request and >=2 snapshots")
+_engine("C16", "TestC16",
+        "op programs with resize (grow by 1-32 blocks, equal, shrink, unparsable) interleaved with writes, snapshots, removals, reopen; "
+        "old bytes and every retained snapshot unchanged, new range zero and writable, Info().Size, every chain file length and "
+        "volume.meta size equal the new size, also after reopen; non-trivial = >=1 accepted grow after a write and a snapshot")
